@@ -160,7 +160,8 @@ func (tx *Tx) LRem(bucket string, key []byte, count int, value []byte) (removedN
 		return 0, err
 	}
 
-	if count > size || -count > size {
+	// (-count overflows for the smallest int: compare count with -size instead)
+	if count > size || count < -size {
 		return 0, list.ErrCount
 	}
 
